@@ -54,4 +54,18 @@ VARIANTS = [
          new="                self.size_dict[e_keep] = new_size if new_size < chi else chi"),
     dict(name="twin: min with swapped arguments", kind="twin", file=HG,
          old="                self.size_dict[e_keep] = min(new_size, chi)", new="                self.size_dict[e_keep] = min(chi, new_size)"),
+    dict(name="round2: HyperGraph keeps the caller's size_dict", kind="break", file=HG,
+         old="        self.size_dict = {} if size_dict is None else dict(size_dict)",
+         new="        if size_dict is None:\n            size_dict = {}\n        elif not isinstance(size_dict, dict):\n            size_dict = dict(size_dict)\n        self.size_dict = size_dict",
+         expect=("C20-OWN", "__init__")),
+    dict(name="HyperGraph.copy shares the size table", kind="break", file=HG,
+         old="        new.size_dict = self.size_dict.copy()", new="        new.size_dict = self.size_dict",
+         expect=("C20-OWN", "copy")),
+    dict(name="round2: bond between the contracted pair always summed", kind="break", file=HG,
+         old="            if (ind in self.edges) or (ind in self.output)\n",
+         new="            if ((ind in self.edges) and (ind not in set(inds_i).intersection(inds_j)))\n            or (ind in self.output)\n",
+         expect=("C20-SURV", "contract")),
+    dict(name="twin: size table copied through a local", kind="twin", file=HG,
+         old="        self.size_dict = {} if size_dict is None else dict(size_dict)",
+         new="        sd = {} if size_dict is None else dict(size_dict)\n        self.size_dict = sd"),
 ]
